@@ -337,6 +337,11 @@ def fuzz_seeds(rng):
         ("Mul, MulAssign", "impl Mul<X> for dyn Tr + Send { type Output = X; fn mul(self, rhs: X) -> X { rhs } }"),
         ("Shl", "impl ShlAssign<&(impl Tr +)> for (X) { fn shl_assign(&mut self, rhs: &(impl Tr +)) {} }"),
         ("Debug, Clone", "struct Dy { a: u8, t: dyn ::core::fmt::Debug + Send }"),
+        # inner attributes, lint attributes of every kind, `*const _` in an impl header
+        ("Add, AddAssign", "#[allow(unused)] impl Add for X { #![allow(unused_variables)] #![doc = \"inner\"] type Output = X; fn add(self, rhs: X) -> X { self } }"),
+        ("Sub", "#[deny(missing_docs)] #[allow(clippy::all)] #[warn(unused)] impl Sub<*const _> for X { type Output = X; fn sub(self, rhs: *const _) -> X { self } }"),
+        ("Clone, Debug, PartialEq, bound(*const _: Copy, ..)", "#[allow(non_snake_case, dead_code)] #[expect(unused)] #[forbid(unsafe_code)] struct L<T> { #[deprecated] Fld: *const T, _m: u8 }"),
+        ("Clone, Default", "#[allow(deprecated)] #[deprecated = \"x\"] enum Le { #[deprecated] #[default] A, #[allow(unused)] B { #[deprecated(note = \"n\")] _x: u8 } }"),
     ]
     for attr, item in items:
         out.append({"entry": "attr", "attr": attr, "item": item, "origin": "gen"})
